@@ -177,8 +177,8 @@ EventsOK(old, new, s) ==
     \A k \in EvKeys :
        LET ro == old.events[k]  rn == new.events[k] IN
        (ro # Absent \/ rn # Absent) =>
-          /\ (Dep_EffectiveLevels =>                                      \* A3: judged on effective (non-state default) values
-                ChangeOK(Eff(ro, Thr(old, "events_default")), Eff(rn, Thr(new, "events_default")), s))
+          /\ (Dep_EffectiveLevels =>                                      \* A3: judged on effective (non-state) requirements;
+                ChangeOK(Required(old, k, FALSE), Required(new, k, FALSE), s)) \* an entry for third_party_invite never takes effect (rule 7)
           /\ (ro # Absent /\ rn # ro => ro <= s)                          \* 10.7
           /\ (rn # Absent /\ rn # ro => rn <= s)                          \* 10.8
 
@@ -188,9 +188,9 @@ NotifOK(v, old, new, s) ==
          LET ro == old.notif[k]  rn == new.notif[k] IN
          (ro # Absent \/ rn # Absent) => ChangeOK(Eff(ro, R50), Eff(rn, R50), s)   \* 10.7, 10.8 on effective values (A3)
 
-UsersOK(old, new, s, sender, oldLevel(_)) ==
+UsersOK(old, new, s, sender, oldLevel(_), oldHas(_)) ==
     \A u \in Users :
-       (old.users[u] # Absent \/ new.users[u] # Absent) =>
+       (oldHas(u) \/ new.users[u] # Absent) =>
           LET eo == oldLevel(u)
               en == Eff(new.users[u], Thr(new, "users_default")) IN
           eo = en \/ (en <= s /\ (u = sender \/ eo < s))                  \* 10.9, 10.10
@@ -202,6 +202,9 @@ R10_PowerLevels(v, st, ev) ==
         \* the level the old content gives a user (what a removal or change is compared with)
         oldLevel(u) == IF ~st.pl.present THEN (IF u = CreateSender THEN NoPLCreator ELSE R0)
                        ELSE Eff(old.users[u], Thr(old, "users_default"))
+        \* A2: without a power_levels event the create sender holds an implicit entry (2^53-1), so a first
+        \* power_levels event that does not list them is judged as removing it
+        oldHas(u) == IF ~st.pl.present THEN u = CreateSender ELSE old.users[u] # Absent
     IN  /\ Common(v, st, ev, "pl", ev.skey # "none")
         /\ ParseOK(v, new)
         /\ ~new.baduser                                                   \* 10.3 / A10
@@ -209,7 +212,7 @@ R10_PowerLevels(v, st, ev) ==
         /\ ScalarsOK(old, new, s)
         /\ EventsOK(old, new, s)
         /\ NotifOK(v, old, new, s)
-        /\ UsersOK(old, new, s, ev.sender, oldLevel)
+        /\ UsersOK(old, new, s, ev.sender, oldLevel, oldHas)
 
 (***************************************************************************)
 (* Rule 11 - m.room.redaction in room versions 1 and 2                     *)
@@ -264,7 +267,7 @@ NoEsc(v, st, ev) ==
           \A k \in NKeys : Eff(old.notif[k], R50) # Eff(new.notif[k], R50)
                               => (Eff(new.notif[k], R50) <= s /\ Eff(old.notif[k], R50) <= s))
     \* no user raised above the sender; no other user at or above the sender changed or removed
-    /\ \A u \in Users : (old.users[u] # Absent \/ new.users[u] # Absent) /\ oldLevel(u) # newLevel(u)
+    /\ \A u \in Users : (old.users[u] # Absent \/ new.users[u] # Absent \/ (~st.pl.present /\ u = CreateSender)) /\ oldLevel(u) # newLevel(u)
                            => (newLevel(u) <= s /\ (u = ev.sender \/ oldLevel(u) < s))
     /\ (PrivilegedCreators(v) => \A u \in Creators(st) : new.users[u] = Absent)
     /\ (IntegerPowerLevels(v) => new.spkind = "int")
@@ -284,7 +287,7 @@ Needed(ev) ==
       [] OTHER -> [create |-> TRUE, pl |-> TRUE, jr |-> FALSE, members |-> {ev.sender}, tpi |-> FALSE]
 
 \* the auth state restricted to what the event needs
-Restrict(st, n) ==
+RestrictTo(st, n) ==
     [st EXCEPT !.create.present = st.create.present /\ n.create,
                !.pl.present = st.pl.present /\ n.pl,
                !.jr = IF n.jr THEN st.jr ELSE "absent",
